@@ -66,6 +66,24 @@ def run(tier):
             chk.violation(what, beh)
     for st in streams:
         os.remove(st)
+    # sharing beyond what 16 bits can count (default geometry): 65540 users of one copied string, one removed, one
+    # overwritten: the others intact, the reference count exact, the linked spelling equal (LimitsTrace "sharers")
+    from checks import doctrace
+    lim = vlib.build("limits-default", "limits.cpp", opt="-O1")
+    (rcode, out), = vlib.run_parallel([[lim]], timeout=900)
+    if rcode != 0 or '"e":"end"' not in out:
+        chk.violation(f"sharers: limits harness died rc={rcode}: {out[-1200:]}")
+    else:
+        trace = os.path.join(wd, "sharers.ndjson")
+        with open(trace, "w") as f:
+            f.write("\n".join(l for l in out.splitlines() if l.startswith("{")) + "\n")
+        ok, nl, detail = doctrace.validate_trace(chk, trace, os.path.join(wd, "sharers-v"), "sharers", module="LimitsTrace",
+                                                 timeout=600)
+        if not ok:
+            chk.violation(detail)
+        else:
+            total += nl
+        chk.phase("sharers", events=nl)
     chk.cov["traces_validated_against_impl"] = total
     chk.cov["evaluations"] = total
     chk.cov["distinct_nontrivial"] = total
